@@ -13,9 +13,9 @@ QUICK_N = 280
 THOROUGH_N = 2400
 SHARD = 40
 CASE_TYPE = "case37"
-COQ_PRELUDE = "From MV Require Import Model.Tnet Corr.C36.\nFrom MV Require Import Corr.C37.\n"
+COQ_PRELUDE = "From MV Require Import Model.Tnet Model.SaveStream Corr.C36.\nFrom MV Require Import Corr.C37.\n"
 TRANSLATORS = ["flowreader_except"]
-RULE = ("kinds: rotate 12% = the real Save addon with a strftime() save_stream_file (minute/second/day/directory patterns, optional filter, append mode) under a fake clock (save.datetime patched) whose ticks cross rotation boundaries between interleaved hooks of 2-5 flows of every type; after EVERY hook all stream files are re-read with FlowReader and must hold exactly the finished matching flows, in order, each complete; trunc-stub 48% = 1-4 small generated records (value trees with floats/UTF-8/nested dicts, occasionally a "
+RULE = ("kinds: rotate 12% = the real Save addon with a strftime() save_stream_file (minute/second/day/directory patterns, optional filter, append mode) under a fake clock (save.datetime patched) whose ticks cross rotation boundaries between interleaved hooks of 2-5 flows of every type; after EVERY hook all stream files are re-read with FlowReader and must hold exactly the finished matching flows, in order, each complete; reconf 14% = the real Save addon driven through the real options manager: 3-10 events, save_stream_file changes to three openable paths (one needing mkdir), a directory and a path under a regular file (OptionsError + rollback), append/overwrite, switching off, pre-existing files, interleaved with finished flows of every type; after EVERY event all files are re-read (also a Coq case against Model/SaveStream.v); trunc-stub 34% = 1-4 small generated records (value trees with floats/UTF-8/nested dicts, occasionally a "
         "non-dict or a record on which from_state raises) read through the real FlowReader (from_state stubbed) at EVERY "
         "truncation offset; trunc-real 12% = files of 1-3 real flows of every type (generated field values) written by "
         "FlowWriter, every truncation offset through the real reader and real from_state (Coq side: boundaries +-2 and "
@@ -71,6 +71,21 @@ def gen(rng, n, tier):
                         "start": rng.choice([[2024, 5, 17, 11, 58, 30], [2023, 12, 31, 23, 59, 50], [2024, 2, 29, 0, 0, 0]]),
                         "filter": rng.choice([None, None, None, "~http", "!~dns", "~tcp | ~udp"]),
                         "append": rng.chance(0.3)})
+        elif r < 0.26:
+            nev = rng.randint(3, 10)
+            evs, nf = [], 0
+            for j in range(nev):
+                q = rng.random()
+                if j == 0 and rng.chance(0.8) or q < 0.38:
+                    # paths 0..2 can be opened, 3 is a directory, 4 has a regular file as parent
+                    evs.append(["set", {"append": rng.chance(0.35), "path": rng.choice([0, 0, 1, 1, 2, 3, 3, 4])}])
+                elif q < 0.45:
+                    evs.append(["set", None])
+                else:
+                    evs.append(["finish", nf])
+                    nf += 1
+            out.append({"k": "reconf", "events": evs, "types": [rng.choice(["http", "http", "tcp", "udp", "dns", "ws"]) for _ in range(nf)],
+                        "init": [[p_, [100 + p_]] for p_ in range(3) if rng.chance(0.3)]})
         elif r < 0.60:
             recs = []
             for _i in range(rng.randint(1, 4)):
@@ -242,6 +257,8 @@ def run_impl(case):
         return {"snaps": snaps, "nsaved": len(saved), "pre": 1 if pre else 0}
     if k == "rotate":
         return run_rotate(case)
+    if k == "reconf":
+        return run_reconf(case)
     raise ValueError(k)
 
 
@@ -324,6 +341,120 @@ def run_rotate(case):
     return {"steps": steps, "nfiles": steps[-1]["files"] if steps else 0, "nfinished": len(finished)}
 
 
+NPATHS = 5
+BAD_PATHS = [3, 4]
+
+
+def run_reconf(case):
+    """the real Save addon driven through the real options manager: save_stream_file changes (also to
+    paths that cannot be opened -> OptionsError + rollback) interleaved with finished flows; after EVERY
+    step every file is re-read from disk"""
+    import shutil
+    from mitmproxy import exceptions
+    from mitmproxy.addons import save
+    from mitmproxy.test import taddons
+    base.load_cert()
+    d = tempfile.mkdtemp(prefix="c37-")
+    paths = [os.path.join(d, "f0"), os.path.join(d, "sub", "f1"), os.path.join(d, "f2"), os.path.join(d, "adir"), os.path.join(d, "afile", "x")]
+    os.mkdir(paths[3])
+    with open(os.path.join(d, "afile"), "wb") as fo:
+        fo.write(b"x")
+    mk = lambda t, n: _mk_typed(t, n)
+    for p_, ids in case["init"]:
+        os.makedirs(os.path.dirname(paths[p_]), exist_ok=True)
+        with open(paths[p_], "wb") as fo:
+            w = M["mio"].FlowWriter(fo)
+            for n in ids:
+                w.add(mk("http", n))
+    steps = []
+    sa = save.Save()
+    try:
+        with taddons.context(sa) as tctx:
+            tctx.configure(sa)      # registers the addon with the real addon manager / options
+            for ev in case["events"]:
+                raised, other = False, None
+                try:
+                    if ev[0] == "set":
+                        spec = None if ev[1] is None else ("+" if ev[1]["append"] else "") + paths[ev[1]["path"]]
+                        try:
+                            tctx.options.update(save_stream_file=spec)
+                        except exceptions.OptionsError:
+                            raised = True
+                    else:
+                        t = case["types"][ev[1]]
+                        f = mk(t, ev[1])
+                        start, end = HOOKS[t]
+                        getattr(sa, start)(f)
+                        getattr(sa, end)(f)
+                except SystemExit:
+                    other = "SystemExit"
+                except Exception as e:  # noqa
+                    other = type(e).__name__
+                files, unclean = [], None
+                for i, pth in enumerate(paths):
+                    ids = []
+                    if os.path.isfile(pth):
+                        with open(pth, "rb") as rd:
+                            out, fin, msg = _read_all(rd.read(), True)
+                        ids = [int(g.id.split("-")[1]) for g in out]
+                        if fin != "clean" and unclean is None:
+                            unclean = [i, fin]
+                    files.append(ids)
+                steps.append({"raised": raised, "other": other, "files": files, "unclean": unclean,
+                              "option": tctx.options.save_stream_file})
+            try:
+                tctx.options.update(save_stream_file=None)
+            except Exception:  # noqa
+                pass
+    finally:
+        if sa.stream:
+            try:
+                sa.stream.fo.close()
+            except Exception:  # noqa
+                pass
+        shutil.rmtree(d, ignore_errors=True)
+    return {"steps": steps, "root": d}
+
+
+def _mk_typed(t, n):
+    tflow = M["tflow"]
+    if t == "http":
+        f = tflow.tflow(resp=True)
+    elif t == "ws":
+        f = tflow.twebsocketflow()
+    elif t == "tcp":
+        f = tflow.ttcpflow()
+    elif t == "udp":
+        f = tflow.tudpflow()
+    else:
+        f = tflow.tdnsflow(resp=True)
+    f.id = "flow-%d" % n
+    return f
+
+
+def reconf_reference(case):
+    """the property, independently of save.py: a file holds the flows finished while it was the target since
+    its last successful open (overwrite) / on top of its old content (append); a rejected change changes nothing"""
+    files = {p_: list(ids) for p_, ids in case["init"]}
+    cur, exp = None, []
+    for ev in case["events"]:
+        raised = False
+        if ev[0] == "set":
+            if ev[1] is None:
+                cur = None
+            elif cur is not None and cur["path"] == ev[1]["path"]:
+                cur = ev[1]
+            elif ev[1]["path"] in BAD_PATHS:
+                raised = True
+            else:
+                files[ev[1]["path"]] = files.get(ev[1]["path"], []) if ev[1]["append"] else []
+                cur = ev[1]
+        elif cur is not None:
+            files.setdefault(cur["path"], []).append(ev[1])
+        exp.append([raised, [list(files.get(i, [])) for i in range(NPATHS)]])
+    return exp
+
+
 def _coq_offsets(offs):
     return clist([f"({cnat(k)}, ({cnat(n)}, {coq_final(fin)}))" for k, n, fin in offs], "(nat * (nat * final))")
 
@@ -353,6 +484,21 @@ def coq_case(case, obs):
         offs = [obs["offsets"][i] for i in sorted(sel)]
         return (f"Trunc {cnat(obs['depth'])} {coq_ftab(obs['ft'])} {coq_stab(obs['fs'])} {cbytes(unhx(obs['data']))} "
                 f"{clist([coq_tv(v) for v in obs['values']], 'tv')} {_coq_offsets(offs)}")
+    if k == "reconf":
+        if any(st["other"] for st in obs["steps"]):
+            return None
+        cl = lambda xs: clist([cnat(x) for x in xs], "nat")
+        evs = []
+        for ev, st in zip(case["events"], obs["steps"]):
+            if ev[0] == "finish":
+                e = f"Finish {cnat(ev[1])}"
+            elif ev[1] is None:
+                e = "SetOpt None"
+            else:
+                e = f"SetOpt (Some {{| sp_append := {'true' if ev[1]['append'] else 'false'}; sp_path := {cnat(ev[1]['path'])} |}})"
+            evs.append(f"({e}, ({'true' if st['raised'] else 'false'}, {clist([cl(x) for x in st['files']], '(list nat)')}))")
+        init = clist([f"({cnat(p_)}, {cl(ids)})" for p_, ids in case["init"]], "(nat * list nat)")
+        return f"SaveOps {cl(BAD_PATHS)} {init} {cnat(NPATHS)} {clist(evs)}"
     if k == "adds":
         if "data" not in obs or len(obs["data"]) // 2 >= 4900:
             return None
@@ -410,6 +556,22 @@ def oracle(case, obs):
         if not obs["final_eq"]:
             v.append({"key": "final-file-differs", "what": "closed file differs from the concatenation of the matching flows' records"})
         return v
+    if k == "reconf":
+        for i, (st, (xr, xf), ev) in enumerate(zip(obs["steps"], reconf_reference(case), case["events"])):
+            where = f"after step #{i + 1} {ev} (events {case['events']}, pre-existing {case['init']})"
+            if st["other"]:
+                v.append({"key": "save-hook-raised", "what": f"{where}: raised {st['other']}"})
+                break
+            if st["unclean"]:
+                v.append({"key": "stream-file-incomplete", "what": f"{where}: file {st['unclean'][0]} does not read cleanly: {st['unclean'][1]}"})
+                break
+            if st["files"] != xf:
+                v.append({"key": "stream-file-lost-or-extra-flows", "what": f"{where}: files hold {st['files']}, the finished flows per file are {xf}"})
+                break
+            if st["raised"] != xr:
+                v.append({"key": "option-change-outcome", "what": f"{where}: options.update raised={st['raised']}, expected raised={xr}"})
+                break
+        return v
     if k == "rotate":
         for i, s in enumerate(obs["steps"]):
             where = f"after hook #{i + 1} {s['hook']}({s['flow']}) at clock {s['clock']} (pattern {case['pattern']}, {s['files']} stream files)"
@@ -461,6 +623,10 @@ def classify(case, obs):
     elif k == "adds":
         tags.append(f"adds:filter={case['filter']}")
         tags.append(f"adds:written={sum(1 for i, s in enumerate(obs['snaps']) if s['len'] > (obs['snaps'][i - 1]['len'] if i else 0))}")
+    elif k == "reconf":
+        tags += [f"reconf:rejected={min(sum(1 for st in obs['steps'] if st['raised']), 3)}",
+                 f"reconf:sets={min(sum(1 for e in case['events'] if e[0] == 'set'), 5)}",
+                 f"reconf:finished={min(len(case['types']), 5)}", f"reconf:preexisting={len(case['init'])}"]
     elif k == "rotate":
         tags += [f"rotate:files={min(obs['nfiles'], 5)}", f"rotate:finished={min(obs['nfinished'], 5)}", f"rotate:filter={case['filter']}"]
     else:
